@@ -330,9 +330,27 @@ class Interp:
                     return False
         return None
 
+    def residual_cond(self, cond: Term) -> Term:
+        """conjuncts that fold to True (disjuncts that fold to False) under the configuration are dropped from a test"""
+        if cond[0] == "bool":
+            keep = []
+            for x in cond[2]:
+                x = self.residual_cond(x)
+                v = self.fold_truth(x)
+                if (cond[1] == "and" and v is True) or (cond[1] == "or" and v is False):
+                    continue
+                keep.append(x)
+            if len(keep) == 1:
+                return keep[0]
+            if keep and len(keep) < len(cond[2]):
+                return ("bool", cond[1], tuple(keep))
+        return cond
+
     def exec_if(self, s: ast.If) -> bool:
         cond = self.expr(s.test)
         f = self.fold_truth(cond)
+        if f is None:
+            cond = self.residual_cond(cond)
         if f is True:
             return self.exec_block(s.body)
         if f is False:
